@@ -119,6 +119,22 @@ def run(ctx):
         if v:
             v["input"] = {"fn": fn, "args": [core.show(a) for a in args]}
             res["violations"].append(v)
+    # a message of exactly 2^26 bytes (a multiple of every power-of-two segment size up to 64 MiB), AES: the reference here is one
+    # OpenSSL CBC pass over the padded message (hand chaining of four million blocks is out of reach), compared on the last block
+    from cryptography.hazmat.primitives.ciphers import Cipher as _C, algorithms as _A, modes as _M
+    for n, padding in ((2 ** 26, 1), (2 ** 26, 3)) if not ctx.thorough else ((2 ** 26, 1), (2 ** 26, 2), (2 ** 26, 3), (2 ** 27, 1)):
+        key = rng.randbytes(16)
+        d = rng.randbytes(n)
+        out = core.impl_call("generate_cbc_mac", (key, d, padding, None, True))
+        padded = o.pad(padding, d, 16)
+        enc = _C(_A.AES(key), _M.CBC(bytes(16))).encryptor()
+        exp = enc.update(padded)[-16:]
+        res["evaluations"] += 1
+        res["distribution"]["huge:generate_cbc_mac"] = res["distribution"].get("huge:generate_cbc_mac", 0) + 1
+        if out != ("OK", core.show(exp)):
+            res["violations"].append({"what": "CBC-MAC of a message of exactly %d bytes differs from algorithm 1" % n, "expected": core.show(exp), "observed": list(out),
+                                      "input": {"fn": "generate_cbc_mac", "message_length": n, "key": key.hex(), "padding": padding, "data": "rng.randbytes(%d)" % n}})
+        del d, padded
     # long messages (nothing dropped or mis-chained at any internal chunk size): implementation vs hand chaining
     for n in ((65521, 65536, 65537, 70001) if not ctx.thorough else (65521, 65536, 65537, 70001, 131071, 131073, 200000)):
         d = rng.randbytes(n)
